@@ -1,6 +1,7 @@
 //! Every scenario prints `<name> REAL <what the shell saw and the app got> | EXPECT <what the property demands>`.
 //! A scripted shell answers a request for `http://h/<n>` according to the graph: node n is
 //!   R(m)  301 with an absolute Location http://h/<m>
+//!   A(m)  308 with an absolute Location on ANOTHER host and directory, http://g/d/<m> (the same node m)
 //!   L(m)  302 with a RELATIVE Location "<m>"
 //!   N     307 without a Location header
 //!   T     200 (terminal)
@@ -101,6 +102,40 @@ fn real_stack(n: u8) -> String {
     r.unwrap_or_else(|_| "PANIC".to_string())
 }
 
+/// the same stack attached through the Command API (`crux_http::command::Http`), whose builder documents
+/// `.middleware(..)` in the same words
+fn real_cmd_stack(n: u8) -> String {
+    LOG.lock().unwrap().clear();
+    let r = std::panic::catch_unwind(|| {
+        let mut b = crux_http::command::Http::<Effect, Event>::post("http://h/0").body_bytes([1u8, 2, 3]);
+        for i in 0..n {
+            b = b.middleware(Mark(i));
+        }
+        let mut cmd: Command<Effect, Event> = b.build().then_send(Event::Done);
+        let mut shell = 0;
+        let mut outcome = String::new();
+        for _ in 0..6 {
+            let effects: Vec<Effect> = cmd.effects().collect();
+            if effects.is_empty() {
+                break;
+            }
+            for Effect::Http(mut req) in effects {
+                shell += 1;
+                LOG.lock().unwrap().push("shell".to_string());
+                req.resolve(HttpResult::Ok(HttpResponse::status(200).build())).expect("resolves");
+            }
+        }
+        for ev in cmd.events() {
+            if let Event::Done(Ok(r)) = ev {
+                outcome = format!("ok{}", u16::from(r.status()));
+            }
+        }
+        let _ = shell;
+        format!("{}->{}", LOG.lock().unwrap().join(","), outcome)
+    });
+    r.unwrap_or_else(|_| "PANIC".to_string())
+}
+
 fn expected_stack(n: u8) -> String {
     let mut v: Vec<String> = (0..n).map(|i| format!("{i}<")).collect();
     v.push("shell".to_string());
@@ -111,6 +146,7 @@ fn expected_stack(n: u8) -> String {
 #[derive(Clone, Copy)]
 enum Node {
     R(usize),
+    A(usize),
     L(usize),
     N,
     T,
@@ -120,6 +156,7 @@ enum Node {
 fn answer(node: Node) -> HttpResponse {
     match node {
         Node::R(m) => HttpResponse::status(301).header("Location", format!("http://h/{m}")).build(),
+        Node::A(m) => HttpResponse::status(308).header("Location", format!("http://g/d/{m}")).build(),
         Node::L(m) => HttpResponse::status(302).header("Location", format!("{m}")).build(),
         Node::N => HttpResponse::status(307).build(),
         Node::T => HttpResponse::status(200).build(),
@@ -128,7 +165,7 @@ fn answer(node: Node) -> HttpResponse {
 }
 
 fn node_of(url: &str, graph: &[Node]) -> Option<usize> {
-    url.strip_prefix("http://h/").and_then(|s| s.parse::<usize>().ok()).filter(|n| *n < graph.len())
+    url.strip_prefix("http://h/").or_else(|| url.strip_prefix("http://g/d/")).and_then(|s| s.parse::<usize>().ok()).filter(|n| *n < graph.len())
 }
 
 /// the real thing: "<url>:<bodylen>,..." for every request the shell saw, then "->" and the outcome
@@ -145,7 +182,7 @@ fn real(limit: u8, graph: &[Node]) -> String {
                 break;
             }
             let url = req.operation.url.clone();
-            seen.push(format!("{}:{}", url.trim_start_matches("http://h/"), req.operation.body.len()));
+            seen.push(format!("{}:{}", url, req.operation.body.len()));
             let resp = match node_of(&url, graph) {
                 Some(n) => answer(graph[n]),
                 None => HttpResponse::status(500).build(),
@@ -163,20 +200,35 @@ fn real(limit: u8, graph: &[Node]) -> String {
 /// answer, then send the original request (3-byte body) to the URL reached; the outcome is that answer's
 fn expected(limit: u8, graph: &[Node]) -> String {
     let mut seen = Vec::new();
+    let mut url = "http://h/0".to_string();
     let mut at = 0usize;
     let mut probes = 0u8;
     while probes < limit {
         probes += 1;
-        seen.push(format!("{at}:0"));
+        seen.push(format!("{url}:0"));
         match graph[at] {
-            Node::R(m) | Node::L(m) => at = m,
+            Node::R(m) => {
+                at = m;
+                url = format!("http://h/{m}");
+            }
+            Node::A(m) => {
+                at = m;
+                url = format!("http://g/d/{m}");
+            }
+            Node::L(m) => {
+                // a relative reference replaces the last path segment of the CURRENT url
+                at = m;
+                let dir = &url[..=url.rfind('/').unwrap()];
+                url = format!("{dir}{m}");
+            }
             Node::N => {}
             Node::T | Node::E => break,
         }
     }
-    seen.push(format!("{at}:3"));
+    seen.push(format!("{url}:3"));
     let outcome = match graph[at] {
         Node::R(_) => "ok301",
+        Node::A(_) => "ok308",
         Node::L(_) => "ok302",
         Node::N => "ok307",
         Node::T => "ok200",
@@ -196,6 +248,9 @@ fn main() {
         ("four", vec![R(1), R(2), R(3), R(4), T]),
         ("rel", vec![L(1), T]),
         ("relabs", vec![L(1), R(2), L(3), T]),
+        ("absrel", vec![A(1), L(2), T]),
+        ("absrelrel", vec![A(1), L(2), L(3), T]),
+        ("absback", vec![A(1), R(2), L(3), T]),
         ("loop", vec![R(1), R(0)]),
         ("self", vec![R(0)]),
         ("noloc", vec![N]),
@@ -205,6 +260,9 @@ fn main() {
     ];
     for n in 0u8..=3 {
         println!("stack-{n} REAL {} | EXPECT {}", real_stack(n), expected_stack(n));
+    }
+    for n in 0u8..=2 {
+        println!("cmdstack-{n} REAL {} | EXPECT {}", real_cmd_stack(n), expected_stack(n));
     }
     for (name, g) in &graphs {
         for limit in 0u8..=4 {
